@@ -19,7 +19,7 @@ def stepQ (fs : List String) : Option String := do
   let e ← ruleEnginesOf cs
   let m := handle e cs.conf cs.up cs.q
   let mOut := renderOutcome m
-  let shown := classOf cs.conf m ++ "\t" ++ mOut
+  let shown := classOfQ cs.conf cs.q m ++ "\t" ++ mOut
   if impl.head? == some "PANIC" then
     pure (verdict false (some "impl-panic") shown)
   else if isHang impl then
@@ -56,7 +56,7 @@ def stepSQ (s : SeqState) (fs : List String) : Option (SeqState × String) := do
         { name := AGH.Bytes.lower q.name, qtype := q.qtype, msg := agedCopy { s.cs.up with answer := s.stored } q } :: s.cache
       else cache0
     let mOut := renderOutcome m
-    let shown := (if hit then "cached:" else "fresh:") ++ classOf s.cs.conf (handle s.e s.cs.conf used q) ++ "\t" ++ mOut
+    let shown := (if hit then "cached:" else "fresh:") ++ classOfQ s.cs.conf q (handle s.e s.cs.conf used q) ++ "\t" ++ mOut
     let s' := { s with cache := if s.packable then cache' else s.cache }
     if impl.head? == some "PANIC" then pure (s', verdict false (some "impl-panic") shown)
     else
